@@ -172,6 +172,11 @@ func (d *Dumper) ValueLit(in any, optFns ...ValueLitOptFn) string {
 		}
 		return fmt.Sprintf("&(%s)", d.ValueLit(rv.Elem(), append(optFns, SubValue(false))...))
 	case reflect.Struct:
+		if o.SubValue && o.OnNamedType == nil && rendersNothing(rv) {
+			// an omitted field: its type literal is not written, so its packages must not be imported
+			return ""
+		}
+
 		buf := bytes.NewBufferString(d.ReflectTypeLit(tpe))
 		buf.WriteString(`{`)
 
@@ -286,6 +291,20 @@ func (d *Dumper) ValueLit(in any, optFns ...ValueLitOptFn) string {
 	default:
 		panic(fmt.Errorf("%s is an unsupported type", tpe.String()))
 	}
+}
+
+// rendersNothing reports whether ValueLit(rv, SubValue(true)) is the empty text: a struct none of whose
+// exported fields is rendered (each is empty, or is itself such a struct).
+func rendersNothing(rv reflect.Value) bool {
+	if rv.Kind() != reflect.Struct {
+		return false
+	}
+	for i := 0; i < rv.NumField(); i++ {
+		if f := rv.Field(i); ast.IsExported(rv.Type().Field(i).Name) && !reflectx.IsEmptyValue(f) && !rendersNothing(f) {
+			return false
+		}
+	}
+	return true
 }
 
 // floatLit keeps the plain decimal form for everyday values; from 1e21 on (where %v of package fmt
